@@ -143,6 +143,15 @@ func leaves(t types.Type) []leaf {
 		}
 		return out
 	}
+	if arr, ok := t.Underlying().(*types.Array); ok && arr.Len() <= 16 {
+		var out []leaf
+		for i := int64(0); i < arr.Len(); i++ {
+			for _, l := range leaves(arr.Elem()) {
+				out = append(out, leaf{fmt.Sprintf("[%d]%s", i, l.Suffix), l.K, l.T})
+			}
+		}
+		return out
+	}
 	return []leaf{{"", kindOf(t), t}}
 }
 
@@ -184,6 +193,15 @@ func unflatten(t types.Type, terms []string) (SymVal, []string) {
 		v := SymVal{K: KSlice, T: t, Fs: []SymVal{
 			{K: KRef, S: terms[0]}, mkMath(terms[1]), mkMath(terms[2]), mkMath(terms[3])}}
 		return v, terms[4:]
+	}
+	if arr, ok := t.Underlying().(*types.Array); ok && arr.Len() <= 16 {
+		v := SymVal{K: KTuple, T: t}
+		for i := int64(0); i < arr.Len(); i++ {
+			var f SymVal
+			f, terms = unflatten(arr.Elem(), terms)
+			v.Fs = append(v.Fs, f)
+		}
+		return v, terms
 	}
 	return SymVal{K: kindOf(t), T: t, S: terms[0]}, terms[1:]
 }
